@@ -238,6 +238,10 @@ def gen_S(seed, klass="S"):
         a = (p.start_of(Y0), di)
         b = (p.end_of(Y0), si)
         tl = r.choice([a, b])
+        if r.random() < 0.25:
+            # the body ends at an arbitrary instant (a zone-line change in zic terms), with the type the footer assigns there
+            t_end = j + r.choice([r.randrange(0, 365 * SPD), r.randrange(0, 3 * SPD), r.randrange(360 * SPD, 366 * SPD), 0])
+            tl = (t_end, di if p.lookup(t_end)[1] else si)
         pool = [lmt, si, di] + extra
     elif p and p.dst:  # all-year DST: the last transition enters permanent DST
         tl = (j + r.randrange(0, 365 * SPD), di)
@@ -409,6 +413,14 @@ def domain_ok(path):
         # RFC 9636 consistency: the footer evaluated at the last transition yields that transition's type
         if z.times and p.lookup(z.times[-1]) != z.types[z.idx[-1]]:
             return False
+        # the first rule transition after the recorded data is >= 3 days after the last recorded one
+        # ("offset changes farther apart than the sum of their sizes" also across the seam)
+        if z.times and p.dst and not p.allyear():
+            last = z.times[-1]
+            y = M.civil(last)[0]
+            nxt = min(t for yy in (y - 1, y, y + 1, y + 2) for t in (p.start_of(yy), p.end_of(yy)) if t > last)
+            if nxt - last < 3 * SPD:
+                return False
     if z.types[0][1] and 0 in z.idx:
         return False
     prev_t = None
